@@ -55,7 +55,7 @@ Definition Binv (v : av) : Prop :=
 Lemma Binv_step v v' : Binv v -> astep v v' -> Binv v'.
 Proof.
   intros (K & J1 & J2 & J3 & NR & A1 & Hn & Hi) H. unfold Binv.
-  destruct H; cbn [a_q a_pas a_cl a_ic a_is a_it a_nid a_ps a_tt a_tl a_hd a_sn a_sc a_ids set].
+  destruct H; cbn [a_q a_pas a_cl a_ic a_is a_it a_nid a_ps a_tt a_tl a_hd a_sn a_sc a_ids a_ev set].
   - (* send *)
     repeat split; try assumption.
     + intros. rewrite has_init_app. rewrite K by assumption. reflexivity.
@@ -84,7 +84,7 @@ Proof.
   - (* start *) repeat split; try assumption. intros _. assumption.
   - (* seg *)
     assert (IS : a_is v = true) by (apply J2; rewrite H; discriminate).
-    destruct (newlen =? total); cbn [a_q a_pas a_cl a_ic a_is a_it a_nid a_ps a_tt a_tl a_hd a_sn a_sc a_ids set];
+    destruct (newlen =? total); cbn [a_q a_pas a_cl a_ic a_is a_it a_nid a_ps a_tt a_tl a_hd a_sn a_sc a_ids a_ev set];
       repeat split; try assumption.
     all: try (intros; rewrite has_init_app, (J1 IS); reflexivity).
     all: try (apply init_first_snoc; [exact J3|]; intros _; apply J1, IS).
@@ -274,7 +274,7 @@ Proof.
   - inversion F; subst. assumption.
 Qed.
 
-Ltac av_simpl := cbn [a_q a_pas a_cl a_ic a_is a_it a_nid a_ps a_tt a_tl a_hd a_sn a_sc a_ids set] in *.
+Ltac av_simpl := cbn [a_q a_pas a_cl a_ic a_is a_it a_nid a_ps a_tt a_tl a_hd a_sn a_sc a_ids a_ev set] in *.
 
 Lemma Score_seg v id data k :
   Score v -> a_tt v = Some (id, data) ->
@@ -372,7 +372,17 @@ Proof.
   destruct H.
   - (* send *)
     unfold Score, T, X, lim in *. av_simpl. rewrite segs_of_snoc_none by assumption. exact HS.
-  - (* close *) exact HS.
+  - (* close: the unstarted queue is dropped *)
+    destruct HS as (Hn & S1 & S2 & S3 & S4 & S5 & S6 & S7 & S8).
+    unfold Score, T, X, lim in *. av_simpl.
+    repeat split; try assumption; try constructor.
+    + eapply Forall_impl; [|exact S5]. intros t [H1 H2].
+      destruct (a_tt v) as [[i dd]|]; [split; assumption|].
+      assert (tr_id t < match a_ps v with [] => a_nid v | (id, _) :: _ => id end) by (apply H2; right; reflexivity).
+      split; [lia|intros _; lia].
+    + apply (S6 _ _ H).
+    + apply (S6 _ _ H).
+    + apply (S6 _ _ H).
   - (* handle *) exact HS.
   - (* conn *) exact HS.
   - (* sess *) exact HS.
@@ -437,6 +447,7 @@ Proof.
     repeat split; try assumption; try discriminate.
     eapply Forall_impl; [|exact S5]. intros t [H1 H2]. split; [lia|intros _; lia].
   - (* start *)
+    rename H3 into Hcl.
     destruct HS as (Hn & S1 & S2 & S3 & S4 & S5 & S6 & S7 & S8).
     unfold Score, T, X, lim in *. av_simpl. rewrite H, H2 in *.
     inversion S1 as [|? ? Sr Fr]; subst. inversion S2 as [|? ? Bi Br]; subst. cbn [fst snd] in *.
@@ -516,6 +527,7 @@ Proof.
   - exact HN.
   - unfold Sne, T in *. av_simpl. intros NE. split; [apply HN, NE|]. discriminate.
   - (* start *)
+    rename H3 into Hcl.
     unfold Sne, T in *. av_simpl. intros NE. split; [apply HN, NE|].
     intros i dd [= <- <-] _.
     destruct HS as (_ & _ & _ & _ & _ & S5 & _). unfold T, lim in S5. rewrite H, H2 in S5.
@@ -556,7 +568,7 @@ Definition Snr (v : av) : Prop :=
   let n := length (map fst Cm ++ opt_id (a_tt v)) in
   map fst Cm ++ opt_id (a_tt v) = Nseq 1 n /\
   (n <= length (a_q v))%nat /\
-  (a_it v = false -> map fst (a_ps v) = Nseq (S n) (length (a_q v) - n)) /\
+  (a_it v = false -> a_cl v = false -> map fst (a_ps v) = Nseq (S n) (length (a_q v) - n)) /\
   (forall cid acc, fst (X v) = Some (cid, acc) -> exists data, a_tt v = Some (cid, data)).
 
 Lemma no_refuse_in l r xid : no_refuse l -> In (FMsg (MXferRefuse r xid)) l -> False.
@@ -569,7 +581,9 @@ Lemma Snr_step v v' : Score v -> Snr v -> astep v v' -> Snr v'.
 Proof.
   intros HS HN H. destruct H.
   - unfold Snr, T, X in *. av_simpl. rewrite segs_of_snoc_none by assumption. exact HN.
-  - exact HN.
+  - (* close *)
+    unfold Snr, T, X in *. av_simpl. intros NR. destruct (HN NR) as (R1 & R2 & R3 & R4).
+    repeat split; try assumption. intros _ F. discriminate F.
   - (* handle *)
     unfold Snr, T, X in *. av_simpl. intros NR. apply HN. apply Forall_app in NR. apply NR.
   - exact HN.
@@ -583,28 +597,29 @@ Proof.
     set (n := length (map fst (complete_of (transfers_of (segs_of (a_sn v)))) ++ opt_id (a_tt v))) in *.
     repeat split; try assumption.
     + rewrite app_length. cbn [length]. lia.
-    + intros It. rewrite map_app, (R3 It). cbn [map fst]. rewrite app_length. cbn [length].
+    + intros It Cl'. rewrite map_app, (R3 It Cl'). cbn [map fst]. rewrite app_length. cbn [length].
       replace (length (a_q v) + 1 - n)%nat with (S (length (a_q v) - n)) by lia.
       rewrite Nseq_snoc. f_equal. f_equal. lia.
   - (* flush *)
     unfold Snr, T, X in *. av_simpl. intros NR. destruct (HN NR) as (R1 & R2 & R3 & R4).
-    repeat split; try assumption. intros It. congruence.
+    repeat split; try assumption. intros It _. congruence.
   - (* refuse_ps *)
     unfold Snr. av_simpl. intros NR. exfalso. eapply no_refuse_in; eassumption.
   - (* refuse_cur *)
     unfold Snr. av_simpl. intros NR. exfalso. eapply no_refuse_in; eassumption.
   - (* start *)
+    rename H3 into Hcl.
     unfold Snr, T, X in *. av_simpl. intros NR. destruct (HN NR) as (R1 & R2 & R3 & R4).
     rewrite H in *. cbn [opt_id] in *. rewrite app_nil_r in *.
     set (Cm := map fst (complete_of (transfers_of (segs_of (a_sn v))))) in *.
-    specialize (R3 H1). rewrite H2 in R3. cbn [map fst] in R3.
+    specialize (R3 H1 Hcl). rewrite H2 in R3. cbn [map fst] in R3.
     destruct (length (a_q v) - length Cm)%nat as [|m] eqn:Em; [discriminate R3|].
     rewrite Nseq_cons in R3. injection R3 as Hid Hrest.
     rewrite app_length. cbn [length]. rewrite Nat.add_1_r.
     repeat split.
     + rewrite Nseq_snoc, <- R1, Hid. repeat f_equal; lia.
     + lia.
-    + intros _. rewrite Hrest. f_equal. lia.
+    + intros _ _. rewrite Hrest. f_equal. lia.
     + intros cid acc Hc. destruct (R4 _ _ Hc) as [dd Hd]. discriminate Hd.
   - (* seg *)
     destruct (seg_transfers v id data k HS H (if a_tl v =? 0 then total_length_ext (N.of_nat (length data)) else []))
@@ -649,6 +664,7 @@ Proof.
   - exact HN.
   - unfold Sst. av_simpl. intros _ NR. exfalso. eapply no_refuse_in; eassumption.
   - (* start *)
+    rename H3 into Hcl.
     unfold Sst, X in *. av_simpl. intros NE NR. destruct (HN NE NR) as (H3 & H4 & H5).
     split; [exact H3|]. split; [|exact H5]. intros Hc. exfalso.
     destruct (fst (xfold (segs_of (a_sn v)))) as [[cid acc]|] eqn:Ec; [|apply Hc; reflexivity].
@@ -864,3 +880,112 @@ Proof.
   rewrite E. intros H. inversion H as [|? ? _ F]; subst. inversion F as [|? ? Hlt _]; subst.
   unfold tr_lt, tr_id in Hlt. cbn [fst] in Hlt. lia.
 Qed.
+
+(** ** Every accepted transfer is accounted for: started, still queued,
+       reported as dropped ('terminating'), or refused by the peer; and a
+       closed endpoint has nothing queued *)
+Definition fin_term (id : N) : event := ESig SigSendFinished [PStrNum id; PInt 0; PStr RES_TERMINATING].
+
+Definition Cinv (v : av) : Prop :=
+  (a_cl v = true -> a_ps v = []) /\
+  forall id, 1 <= id <= N.of_nat (length (a_q v)) ->
+    (exists len, In (started_ev id len) (a_ev v)) \/ In id (map fst (a_ps v)) \/
+    In (fin_term id) (a_ev v) \/ (exists r, In (FMsg (MXferRefuse r id)) (a_hd v)).
+
+Lemma dict_del_keys_other {V} k (d : list (N * V)) x :
+  In x (map fst d) -> x <> k -> In x (map fst (dict_del k d)).
+Proof.
+  induction d as [|[a b] d IH]; cbn [dict_del map fst In]; [tauto|]. intros [H|H] Hx.
+  - subst a. destruct (x =? k) eqn:E; [apply N.eqb_eq in E; contradiction|]. left. reflexivity.
+  - destruct (a =? k); [exact H|]. right. apply IH; assumption.
+Qed.
+
+Lemma flush_reports (ps : list (N * bytes)) id : In id (map fst ps) -> In (fin_term id) (map term_ev ps).
+Proof.
+  intros H. apply in_map_iff in H. destruct H as [p [<- Hp]]. apply in_map_iff. exists p. split; [reflexivity|exact Hp].
+Qed.
+
+Lemma Cinv_step v v' : Score v -> Cinv v -> astep v v' -> Cinv v'.
+Proof.
+  intros HS [C1 C2] H. destruct H; unfold Cinv; av_simpl.
+  - split; assumption.
+  - (* close *)
+    split; [reflexivity|]. intros id Hid. destruct (C2 id Hid) as [[len Hs]|[Hp|[Ht|Hr]]].
+    + left. exists len. apply in_or_app. left. exact Hs.
+    + right. right. left. apply in_or_app. right. apply flush_reports, Hp.
+    + right. right. left. apply in_or_app. left. exact Ht.
+    + right. right. right. exact Hr.
+  - (* handle *)
+    split; [exact C1|]. intros id Hid. destruct (C2 id Hid) as [Hs|[Hp|[Ht|[r Hr]]]]; auto.
+    right. right. right. exists r. apply in_or_app. left. exact Hr.
+  - split; assumption.
+  - split; assumption.
+  - split; assumption.
+  - (* queue *)
+    destruct HS as (Hn & _).
+    split; [intros F; congruence|]. intros id Hid. rewrite app_length in Hid. cbn [length] in Hid.
+    rewrite map_app. cbn [map fst].
+    destruct (N.eq_dec id (a_nid v)) as [->|Hne].
+    + right. left. apply in_or_app. right. left. reflexivity.
+    + assert (Hid' : 1 <= id <= N.of_nat (length (a_q v))) by lia.
+      destruct (C2 id Hid') as [Hs|[Hp|[Ht|Hr]]]; auto.
+      right. left. apply in_or_app. left. exact Hp.
+  - (* flush *)
+    split; [reflexivity|]. intros id Hid. destruct (C2 id Hid) as [[len Hs]|[Hp|[Ht|Hr]]].
+    + left. exists len. apply in_or_app. left. exact Hs.
+    + right. right. left. apply in_or_app. right. apply flush_reports, Hp.
+    + right. right. left. apply in_or_app. left. exact Ht.
+    + right. right. right. exact Hr.
+  - (* refuse_ps *)
+    split; [intros F; rewrite (C1 F); reflexivity|]. intros id Hid.
+    destruct (C2 id Hid) as [Hs|[Hp|[Ht|Hr]]]; auto.
+    destruct (N.eq_dec id xid) as [->|Hne].
+    + right. right. right. exists r. assumption.
+    + right. left. apply dict_del_keys_other; assumption.
+  - (* refuse_cur *) split; assumption.
+  - (* start *)
+    split; [intros F; congruence|]. intros i Hid.
+    destruct (C2 i Hid) as [[len Hs]|[Hp|[Ht|Hr]]].
+    + left. exists len. apply in_or_app. left. exact Hs.
+    + rewrite H2 in Hp. cbn [map fst In] in Hp. destruct Hp as [<-|Hp].
+      * left. eexists. apply in_or_app. right. left. reflexivity.
+      * right. left. exact Hp.
+    + right. right. left. apply in_or_app. left. exact Ht.
+    + right. right. right. exact Hr.
+  - (* seg *)
+    match goal with |- context [if ?c then _ else _] => destruct c end; av_simpl; split; assumption.
+  - split; assumption.
+Qed.
+
+Lemma Cinv_init c : Cinv (sv [] (init c)).
+Proof. split; [reflexivity|]. cbn. intros id Hid. lia. Qed.
+
+Theorem Cinv_run c ops : Cinv (sv (queued c ops) (run c ops)).
+Proof.
+  assert (H : Sall (sv (queued c ops) (run c ops)) /\ Cinv (sv (queued c ops) (run c ops))).
+  { eapply (asteps_invariant (fun v => Sall v /\ Cinv v)); [|apply as_run|split; [apply Sall_init|apply Cinv_init]].
+    intros v v' [HA HC] Hst. split; [eapply Sall_step; eassumption|].
+    eapply Cinv_step; [apply HA|exact HC|exact Hst]. }
+  apply H.
+Qed.
+
+(** After a close, every accepted transfer that was never started has been
+    reported: finished with the 'terminating' result, or refused by the peer. *)
+Theorem unstarted_reported_on_close c ops :
+  closed (run c ops) = true ->
+  forall id, 1 <= id <= N.of_nat (length (queued c ops)) ->
+    (exists len, In (ESig SigSendStarted [PStrNum id; PInt len]) (trace (run c ops))) \/
+    In (ESig SigSendFinished [PStrNum id; PInt 0; PStr RES_TERMINATING]) (trace (run c ops)) \/
+    (exists r, In (FMsg (MXferRefuse r id)) (handled (run c ops))).
+Proof.
+  intros Cl id Hid. destruct (Cinv_run c ops) as [C1 C2]. cbn [a_cl a_ps sv] in C1.
+  destruct (C2 id Hid) as [[len Hs]|[Hp|[Ht|Hr]]].
+  - left. exists len. cbn [a_ev sv] in Hs. apply filter_In in Hs. apply Hs.
+  - cbn [a_ps sv] in Hp. rewrite (C1 Cl) in Hp. contradiction.
+  - right. left. cbn [a_ev sv] in Ht. apply filter_In in Ht. apply Ht.
+  - right. right. exact Hr.
+Qed.
+
+(** A closed endpoint has no transfer waiting to start. *)
+Theorem closed_nothing_pending c ops : closed (run c ops) = true -> pend_start (run c ops) = [].
+Proof. intros Cl. destruct (Cinv_run c ops) as [C1 _]. apply C1, Cl. Qed.
